@@ -125,8 +125,10 @@ def toOp (l : Line) : Option Op :=
   | "feed" =>
     let bf := match l.str "bf" "none" with
       | "none" => Backfill.none
+      | "resume" => Backfill.resume
       | n => .from (n.toNat?.getD 0)
-    some (.startFeed c k bf (l.flag "dump") (l.flag "keysonly"))
+    some (.startFeed c k bf (l.flag "dump") (l.flag "keysonly") (l.str "prefix"))
+  | "stopfeed" => some (.stopFeed c)
   | "drain" => some (.drain c)
   | "fire" => some .fire
   | "expstate" => some .expState
